@@ -1,15 +1,2025 @@
-//! C07 — engine not implemented yet.
+//! C07 — process image: inputs latched once per cycle, outputs published once at the end
+//! (core X1: bounded-exhaustive enumeration of binding sets x driver input streams, every case
+//! compiled and executed on the real runtime with instrumented `IoDriver`s).
+//!
+//! Families (all enumerated completely, simplest first):
+//! * `api`     — `IoInterface::write/read` for every address (area x size x offset x bit) on a
+//!               pre-filled image, against the reference image model below.
+//! * `single`  — one `AT` binding, every address x every declared type of the right width,
+//!               in four binding sites (program-local, VAR_GLOBAL + two tasks + background
+//!               program, `AT %I*` + VAR_CONFIG, FB-local), 1 or 2 drivers, with/without a
+//!               division by zero in the middle of the program.
+//! * `partial` — IEC Table 17 partial access (`.%Xn .%Bn .%Wn .%Dn`) on a bound bit-string
+//!               variable: the image bit/byte it lands in (little-endian, bit n of byte b).
+//! * `tri`     — the same address bound in %I, %Q and %M at once (areas are independent).
+//! * `pair`    — two bindings in one area whose byte spans overlap or touch.
+//!
+//! What is NOT in the alphabet (expected behaviour not derivable from statement + docs/specs):
+//! * TIME/DATE/TOD/DT/LTIME/LDATE/LTOD/LDT bindings: the compiler accepts them but no encoding is
+//!   documented, and on the current tree every cycle ends in `TypeMismatch` inside the exchange
+//!   (a faulted cycle publishes nothing, which the statement allows). They are probed once and the
+//!   outcome is recorded in the evidence (`non_alphabet_types`), never reported.
+//! * size prefix that does not match the declared type (`x AT %QB0 : DINT`): the runtime lets the
+//!   declared type decide the extent (the repository's own tests bind structs at `%QB6`), so
+//!   "the bytes the address denotes" is read as location + extent of the declared type.
+//! * arrays/structs at an address, hierarchical addresses, addresses beyond the image size.
+//! * direct addresses used as expressions (`x := %IW0;`): the runtime's lowering has no case for
+//!   them, a program reaches the image only through `AT` variables (and hosts through the API).
+//! * value type tags: C03's business. All comparisons here are on bit patterns; a value with a
+//!   drifted tag but the right numeric value is accepted.
+//!
+//! Ambiguities resolved by accepting every reasonable reading:
+//! * two output (or marker) bindings with overlapping spans and different final values cannot both
+//!   be encoded; the published image may be either serialisation (A then B, or B then A).
+//! * "final value" of an output-bound variable = the value found in the variable after the cycle
+//!   (no assumption on task order, that is C06's business); the harness only insists (as a
+//!   machinery check) that all three program segments ran.
+//! * in a faulted cycle a driver may be given outputs as long as no bound span carries a value the
+//!   program computed in that cycle.
+//! * a fault raised by the exchange itself (coercion error in latch/publish) makes the cycle a
+//!   faulted cycle, which may publish nothing: counted (`exchange_faults_not_reported`, reported as
+//!   a cap), never a violation; if that makes a whole type/area unchecked the engine fails itself.
+//!
+//! Signatures name the violated clause and the diagnosed cause, never addresses or values:
+//! `calls/reads=2:writes=1`, `calls/order:R0R1W1W0`, `latch/%I:stale:later-call:last`,
+//! `latch/W:byte-order`, `latch/B:SINT:decode`, `latch/X:mismatch` (one bit cannot tell causes
+//! apart), `publish/%Q:stale:mid`, `publish/W:byte-order`, `publish/D:REAL:encode`,
+//! `publish/overlap:B+W`, `locality/X:same-byte`, `locality/D:after`, `fault-publish/fault-cycle`,
+//! `partial/write:%B@D`, `api/write:W:byte-order`. A pair/tri case is reported for the read or
+//! write side only if no member size already failed that side alone (minimal configuration).
 
 use crate::fw::*;
 use crate::iso::WorkerFn;
-use serde_json::Value;
+use crate::par::par_map;
+use serde_json::{json, Value as J};
+use std::collections::{BTreeMap, HashSet};
+use std::sync::{Arc, Mutex};
+use std::time::{Duration as StdDuration, Instant};
+use trust_runtime::error::RuntimeError;
+use trust_runtime::harness::TestHarness;
+use trust_runtime::io::{IoAddress, IoDriver};
+use trust_runtime::memory::InstanceId;
+use trust_runtime::value::{Duration, Value};
+use trust_runtime::Runtime;
 
-pub fn run(_ctx: &Ctx) -> EngineResult {
-    machinery("engine C07 not implemented")
+const IMG: usize = 18;
+const PREFILL: u8 = 0xA5;
+/// with two drivers, driver 0 supplies input bytes [0,SPLIT), driver 1 the rest
+const SPLIT: usize = 4;
+const OFFSETS: [usize; 5] = [0, 1, 2, 3, 7];
+
+// ------------------------------------------------------------------------------------------
+// alphabet
+// ------------------------------------------------------------------------------------------
+
+#[derive(Clone, Copy, PartialEq, Eq, Debug, Hash, PartialOrd, Ord)]
+enum Area {
+    I,
+    Q,
+    M,
 }
 
-pub fn check_case(_case: &Value) -> Vec<Violation> {
-    Vec::new()
+impl Area {
+    fn ch(self) -> char {
+        match self {
+            Area::I => 'I',
+            Area::Q => 'Q',
+            Area::M => 'M',
+        }
+    }
+    fn reads(self) -> bool {
+        matches!(self, Area::I | Area::M)
+    }
+    fn writes(self) -> bool {
+        matches!(self, Area::Q | Area::M)
+    }
+}
+
+const AREAS: [Area; 3] = [Area::I, Area::Q, Area::M];
+
+#[derive(Clone, Copy, PartialEq, Eq, Debug, Hash, PartialOrd, Ord)]
+enum Size {
+    X,
+    B,
+    W,
+    D,
+    L,
+}
+
+impl Size {
+    fn ch(self) -> char {
+        match self {
+            Size::X => 'X',
+            Size::B => 'B',
+            Size::W => 'W',
+            Size::D => 'D',
+            Size::L => 'L',
+        }
+    }
+    fn bits(self) -> usize {
+        match self {
+            Size::X => 1,
+            Size::B => 8,
+            Size::W => 16,
+            Size::D => 32,
+            Size::L => 64,
+        }
+    }
+    fn mask(self) -> u64 {
+        if self.bits() == 64 {
+            u64::MAX
+        } else {
+            (1u64 << self.bits()) - 1
+        }
+    }
+}
+
+const SIZES: [Size; 5] = [Size::X, Size::B, Size::W, Size::D, Size::L];
+
+#[derive(Clone, Copy, PartialEq, Eq, Debug, Hash)]
+struct Addr {
+    area: Area,
+    size: Size,
+    byte: usize,
+    bit: u8,
+}
+
+impl Addr {
+    fn text(&self) -> String {
+        match self.size {
+            Size::X => format!("%{}X{}.{}", self.area.ch(), self.byte, self.bit),
+            s => format!("%{}{}{}", self.area.ch(), s.ch(), self.byte),
+        }
+    }
+    fn parse(t: &str) -> Option<Addr> {
+        let b = t.as_bytes();
+        if b.len() < 4 || b[0] != b'%' {
+            return None;
+        }
+        let area = match b[1] {
+            b'I' => Area::I,
+            b'Q' => Area::Q,
+            b'M' => Area::M,
+            _ => return None,
+        };
+        let size = match b[2] {
+            b'X' => Size::X,
+            b'B' => Size::B,
+            b'W' => Size::W,
+            b'D' => Size::D,
+            b'L' => Size::L,
+            _ => return None,
+        };
+        let rest = &t[3..];
+        let (byte, bit) = if size == Size::X {
+            let (a, c) = rest.split_once('.')?;
+            (a.parse().ok()?, c.parse().ok()?)
+        } else {
+            (rest.parse().ok()?, 0u8)
+        };
+        let a = Addr { area, size, byte, bit };
+        if bit > 7 || a.byte_span().1 > IMG {
+            return None;
+        }
+        Some(a)
+    }
+    /// [start, end) in image bit numbering (bit n of byte b = 8b+n)
+    fn bit_span(&self) -> (usize, usize) {
+        let s = self.byte * 8 + self.bit as usize;
+        (s, s + self.size.bits())
+    }
+    fn byte_span(&self) -> (usize, usize) {
+        match self.size {
+            Size::X => (self.byte, self.byte + 1),
+            s => (self.byte, self.byte + s.bits() / 8),
+        }
+    }
+    /// cause feature used in signatures: the size only (the image code is the same for all areas)
+    fn tag(&self) -> String {
+        self.size.ch().to_string()
+    }
+}
+
+fn addresses(area: Area) -> Vec<Addr> {
+    let mut v = Vec::new();
+    for size in SIZES {
+        for byte in OFFSETS {
+            if size == Size::X {
+                for bit in 0..8u8 {
+                    v.push(Addr { area, size, byte, bit });
+                }
+            } else {
+                v.push(Addr { area, size, byte, bit: 0 });
+            }
+        }
+    }
+    v
+}
+
+#[derive(Clone, Copy, PartialEq, Eq, Debug)]
+enum Kind {
+    Bool,
+    Signed,
+    Unsigned,
+    Bits,
+    Char,
+    Real,
+}
+
+#[derive(Debug)]
+struct Ty {
+    name: &'static str,
+    size: Size,
+    kind: Kind,
+}
+
+/// every elementary type whose I/O encoding follows from "little-endian" alone
+static TYPES: [Ty; 17] = [
+    Ty { name: "BOOL", size: Size::X, kind: Kind::Bool },
+    Ty { name: "BYTE", size: Size::B, kind: Kind::Bits },
+    Ty { name: "SINT", size: Size::B, kind: Kind::Signed },
+    Ty { name: "USINT", size: Size::B, kind: Kind::Unsigned },
+    Ty { name: "CHAR", size: Size::B, kind: Kind::Char },
+    Ty { name: "WORD", size: Size::W, kind: Kind::Bits },
+    Ty { name: "INT", size: Size::W, kind: Kind::Signed },
+    Ty { name: "UINT", size: Size::W, kind: Kind::Unsigned },
+    Ty { name: "WCHAR", size: Size::W, kind: Kind::Char },
+    Ty { name: "DWORD", size: Size::D, kind: Kind::Bits },
+    Ty { name: "DINT", size: Size::D, kind: Kind::Signed },
+    Ty { name: "UDINT", size: Size::D, kind: Kind::Unsigned },
+    Ty { name: "REAL", size: Size::D, kind: Kind::Real },
+    Ty { name: "LWORD", size: Size::L, kind: Kind::Bits },
+    Ty { name: "LINT", size: Size::L, kind: Kind::Signed },
+    Ty { name: "ULINT", size: Size::L, kind: Kind::Unsigned },
+    Ty { name: "LREAL", size: Size::L, kind: Kind::Real },
+];
+
+/// accepted by the compiler as bindings, but outside the alphabet (see module comment)
+const NON_ALPHABET_TYPES: [(&str, char); 8] = [
+    ("TIME", 'D'),
+    ("DATE", 'D'),
+    ("TOD", 'D'),
+    ("DT", 'D'),
+    ("LTIME", 'L'),
+    ("LDATE", 'L'),
+    ("LTOD", 'L'),
+    ("LDT", 'L'),
+];
+
+fn ty_by_name(n: &str) -> Option<&'static Ty> {
+    TYPES.iter().find(|t| t.name == n)
+}
+
+fn types_of(size: Size) -> Vec<&'static Ty> {
+    TYPES.iter().filter(|t| t.size == size).collect()
+}
+
+fn bits_type(size: Size) -> &'static Ty {
+    TYPES.iter().find(|t| t.size == size && matches!(t.kind, Kind::Bits | Kind::Bool)).unwrap()
+}
+
+fn mk_value(ty: &Ty, bits: u64) -> Value {
+    let bits = bits & ty.size.mask();
+    match (ty.kind, ty.size) {
+        (Kind::Bool, _) => Value::Bool(bits & 1 == 1),
+        (Kind::Signed, Size::B) => Value::SInt(bits as u8 as i8),
+        (Kind::Signed, Size::W) => Value::Int(bits as u16 as i16),
+        (Kind::Signed, Size::D) => Value::DInt(bits as u32 as i32),
+        (Kind::Signed, _) => Value::LInt(bits as i64),
+        (Kind::Unsigned, Size::B) => Value::USInt(bits as u8),
+        (Kind::Unsigned, Size::W) => Value::UInt(bits as u16),
+        (Kind::Unsigned, Size::D) => Value::UDInt(bits as u32),
+        (Kind::Unsigned, _) => Value::ULInt(bits),
+        (Kind::Bits, Size::B) => Value::Byte(bits as u8),
+        (Kind::Bits, Size::W) => Value::Word(bits as u16),
+        (Kind::Bits, Size::D) => Value::DWord(bits as u32),
+        (Kind::Bits, _) => Value::LWord(bits),
+        (Kind::Char, Size::B) => Value::Char(bits as u8),
+        (Kind::Char, _) => Value::WChar(bits as u16),
+        (Kind::Real, Size::D) => Value::Real(f32::from_bits(bits as u32)),
+        (Kind::Real, _) => Value::LReal(f64::from_bits(bits)),
+    }
+}
+
+/// Bit pattern of a runtime value as seen through a variable of type `ty`. Deliberately blind to
+/// the tag (C03): any integer-like variant is taken by its numeric value in two's complement.
+fn value_bits(ty: &Ty, v: &Value) -> Option<u64> {
+    let num: Option<i128> = match v {
+        Value::SInt(x) => Some(*x as i128),
+        Value::Int(x) => Some(*x as i128),
+        Value::DInt(x) => Some(*x as i128),
+        Value::LInt(x) => Some(*x as i128),
+        Value::USInt(x) => Some(*x as i128),
+        Value::UInt(x) => Some(*x as i128),
+        Value::UDInt(x) => Some(*x as i128),
+        Value::ULInt(x) => Some(*x as i128),
+        Value::Byte(x) => Some(*x as i128),
+        Value::Word(x) => Some(*x as i128),
+        Value::DWord(x) => Some(*x as i128),
+        Value::LWord(x) => Some(*x as i128),
+        Value::Char(x) => Some(*x as i128),
+        Value::WChar(x) => Some(*x as i128),
+        _ => None,
+    };
+    match ty.kind {
+        Kind::Bool => match v {
+            Value::Bool(b) => Some(*b as u64),
+            _ => None,
+        },
+        Kind::Real => match (v, ty.size) {
+            (Value::Real(f), Size::D) => Some(f.to_bits() as u64),
+            (Value::LReal(d), Size::D) => Some((*d as f32).to_bits() as u64),
+            (Value::LReal(d), _) => Some(d.to_bits()),
+            (Value::Real(f), _) => Some((*f as f64).to_bits()),
+            _ => None,
+        },
+        _ => num.map(|n| (n as u64) & ty.size.mask()),
+    }
+}
+
+// ------------------------------------------------------------------------------------------
+// reference image model (little-endian, bit n of byte b) — written from the statement only
+// ------------------------------------------------------------------------------------------
+
+fn img_get(img: &[u8], a: &Addr) -> u64 {
+    match a.size {
+        Size::X => ((img[a.byte] >> a.bit) & 1) as u64,
+        s => {
+            let mut v = 0u64;
+            for k in 0..s.bits() / 8 {
+                v |= (img[a.byte + k] as u64) << (8 * k);
+            }
+            v
+        }
+    }
+}
+
+fn img_put(img: &mut [u8], a: &Addr, v: u64) {
+    match a.size {
+        Size::X => {
+            if v & 1 == 1 {
+                img[a.byte] |= 1 << a.bit;
+            } else {
+                img[a.byte] &= !(1 << a.bit);
+            }
+        }
+        s => {
+            for k in 0..s.bits() / 8 {
+                img[a.byte + k] = (v >> (8 * k)) as u8;
+            }
+        }
+    }
+}
+
+fn bit_at(img: &[u8], pos: usize) -> bool {
+    (img[pos / 8] >> (pos % 8)) & 1 == 1
+}
+
+fn rev_bytes(size: Size, v: u64) -> u64 {
+    match size {
+        Size::W => (v as u16).swap_bytes() as u64,
+        Size::D => (v as u32).swap_bytes() as u64,
+        Size::L => v.swap_bytes(),
+        _ => v,
+    }
+}
+
+fn hex(img: &[u8]) -> String {
+    img.iter().map(|b| format!("{b:02x}")).collect::<Vec<_>>().join(" ")
+}
+
+// ------------------------------------------------------------------------------------------
+// recognisable data
+// ------------------------------------------------------------------------------------------
+
+/// byte `i` of the image driver `drv` supplies on its `n`-th call: neighbouring bytes differ,
+/// every bit flips between consecutive calls, calls two apart differ in every byte.
+fn in_pat(drv: usize, n: u32, i: usize) -> u8 {
+    let base = (i as u8)
+        .wrapping_mul(0x1D)
+        .wrapping_add(0x3B)
+        .wrapping_add(((n / 2) as u8).wrapping_mul(0x47))
+        .wrapping_add((drv as u8).wrapping_mul(0x65));
+    if n % 2 == 1 {
+        !base
+    } else {
+        base
+    }
+}
+
+/// marker image poked by the harness before cycle `c` (stands for an external writer of %M)
+fn mem_pat(c: usize, i: usize) -> u8 {
+    let base = (i as u8)
+        .wrapping_mul(0x2B)
+        .wrapping_add(0x17)
+        .wrapping_add(((c / 2) as u8).wrapping_mul(0x59));
+    if c % 2 == 1 {
+        !base
+    } else {
+        base
+    }
+}
+
+/// value written by the program to binding `k` in cycle `c` in phase 0 (early), 1 (mid), 2 (late)
+fn src_bits(ty: &Ty, k: usize, c: usize, phase: usize, fault_cycle: usize) -> u64 {
+    if ty.kind == Kind::Bool {
+        // late alternates per cycle; mid differs from late (premature publication is visible);
+        // in the fault cycle mid differs from the last published value instead
+        let late = |c: usize| (c + k) % 2 == 1;
+        let mid = if c == fault_cycle { !late(c.wrapping_sub(1)) } else { !late(c) };
+        let b = match phase {
+            0 => !mid,
+            1 => mid,
+            _ => late(c),
+        };
+        return b as u64;
+    }
+    let off = (phase as u8)
+        .wrapping_mul(0x07)
+        .wrapping_add((c as u8).wrapping_mul(0x35))
+        .wrapping_add((k as u8).wrapping_mul(0x80))
+        .wrapping_add(0x02);
+    let mut v = 0u64;
+    for j in 0..ty.size.bits() / 8 {
+        let b = ((j as u8 + 1).wrapping_mul(0x11)).wrapping_add(off);
+        v |= (b as u64) << (8 * j);
+    }
+    v
+}
+
+// ------------------------------------------------------------------------------------------
+// cases
+// ------------------------------------------------------------------------------------------
+
+#[derive(Clone, Copy, PartialEq, Eq, Debug, Hash)]
+enum Shape {
+    Local,
+    Tasks,
+    VarCfg,
+    Fb,
+}
+
+impl Shape {
+    fn name(self) -> &'static str {
+        match self {
+            Shape::Local => "local",
+            Shape::Tasks => "tasks",
+            Shape::VarCfg => "varcfg",
+            Shape::Fb => "fb",
+        }
+    }
+    fn parse(s: &str) -> Option<Shape> {
+        Some(match s {
+            "local" => Shape::Local,
+            "tasks" => Shape::Tasks,
+            "varcfg" => Shape::VarCfg,
+            "fb" => Shape::Fb,
+            _ => return None,
+        })
+    }
+}
+
+#[derive(Clone, Debug)]
+struct Bind {
+    addr: Addr,
+    ty: &'static Ty,
+}
+
+#[derive(Clone, Copy, Debug, PartialEq, Eq)]
+struct Partial {
+    /// 'X' | 'B' | 'W' | 'D'
+    kind: char,
+    idx: usize,
+}
+
+impl Partial {
+    fn size(&self) -> Size {
+        match self.kind {
+            'X' => Size::X,
+            'B' => Size::B,
+            'W' => Size::W,
+            _ => Size::D,
+        }
+    }
+    /// address of the accessed part inside the image, given the address of the whole variable
+    fn sub_addr(&self, whole: &Addr) -> Addr {
+        let s = self.size();
+        let start = whole.byte * 8 + self.idx * s.bits();
+        Addr { area: whole.area, size: s, byte: start / 8, bit: (start % 8) as u8 }
+    }
+}
+
+#[derive(Clone, Debug)]
+struct Case {
+    family: &'static str,
+    shape: Shape,
+    drivers: usize,
+    /// 0 = no fault; otherwise the (1-based) cycle in which the program divides by zero
+    fault_cycle: usize,
+    binds: Vec<Bind>,
+    partial: Option<Partial>,
+}
+
+impl Case {
+    fn to_json(&self) -> J {
+        let mut j = json!({
+            "family": self.family,
+            "shape": self.shape.name(),
+            "drivers": self.drivers,
+            "fault_cycle": self.fault_cycle,
+            "binds": self.binds.iter().map(|b| json!({"addr": b.addr.text(), "type": b.ty.name})).collect::<Vec<_>>(),
+        });
+        if let Some(p) = &self.partial {
+            j["partial"] = json!({"kind": p.kind.to_string(), "idx": p.idx});
+        }
+        j
+    }
+    fn from_json(j: &J) -> Option<Case> {
+        let family = match j["family"].as_str()? {
+            "single" => "single",
+            "pair" => "pair",
+            "tri" => "tri",
+            "partial" => "partial",
+            _ => return None,
+        };
+        let mut binds = Vec::new();
+        for b in j["binds"].as_array()? {
+            binds.push(Bind { addr: Addr::parse(b["addr"].as_str()?)?, ty: ty_by_name(b["type"].as_str()?)? });
+        }
+        let partial = match j.get("partial") {
+            Some(p) if p.is_object() => Some(Partial {
+                kind: p["kind"].as_str()?.chars().next()?,
+                idx: p["idx"].as_u64()? as usize,
+            }),
+            _ => None,
+        };
+        Some(Case {
+            family,
+            shape: Shape::parse(j["shape"].as_str()?)?,
+            drivers: j["drivers"].as_u64()? as usize,
+            fault_cycle: j["fault_cycle"].as_u64()? as usize,
+            binds,
+            partial,
+        })
+    }
+}
+
+// ------------------------------------------------------------------------------------------
+// program generator
+// ------------------------------------------------------------------------------------------
+
+struct Var {
+    name: String,
+    ty: String,
+    at: Option<String>,
+}
+
+struct Prog {
+    vars: Vec<Var>,
+    /// statements of the three segments with the variables each uses
+    seg: [Vec<String>; 3],
+    uses: [Vec<String>; 3],
+}
+
+impl Prog {
+    fn var(&mut self, name: &str, ty: &str, at: Option<String>) {
+        self.vars.push(Var { name: name.to_string(), ty: ty.to_string(), at });
+    }
+    fn stmt(&mut self, seg: usize, text: String, uses: &[&str]) {
+        self.seg[seg].push(text);
+        for u in uses {
+            if !self.uses[seg].iter().any(|x| x == u) {
+                self.uses[seg].push(u.to_string());
+            }
+        }
+    }
+}
+
+fn build_prog(case: &Case) -> Prog {
+    let mut p = Prog { vars: Vec::new(), seg: Default::default(), uses: Default::default() };
+    for (k, b) in case.binds.iter().enumerate() {
+        let t = b.ty.name;
+        p.var(&format!("b{k}"), t, Some(b.addr.text()));
+        if b.addr.area.reads() {
+            p.var(&format!("ra{k}"), t, None);
+        }
+        if b.addr.area == Area::I {
+            p.var(&format!("rm{k}"), t, None);
+            p.var(&format!("rz{k}"), t, None);
+        }
+        if b.addr.area.writes() {
+            p.var(&format!("se{k}"), t, None);
+            p.var(&format!("sm{k}"), t, None);
+            p.var(&format!("sl{k}"), t, None);
+        }
+    }
+    if let Some(pa) = &case.partial {
+        let pt = bits_type(pa.size()).name;
+        p.var("pv", pt, None);
+    }
+    for n in ["stamp", "ma", "mb", "mc", "zq", "zz"] {
+        p.var(n, "INT", None);
+    }
+    p.var("trip", "BOOL", None);
+
+    // segment A: first statements read the inputs, then the early output writes
+    for (k, b) in case.binds.iter().enumerate() {
+        if b.addr.area.reads() && case.partial.is_none() {
+            p.stmt(0, format!("ra{k} := b{k};"), &[&format!("ra{k}"), &format!("b{k}")]);
+        }
+    }
+    for (k, b) in case.binds.iter().enumerate() {
+        if b.addr.area.writes() {
+            p.stmt(0, format!("b{k} := se{k};"), &[&format!("b{k}"), &format!("se{k}")]);
+        }
+    }
+    p.stmt(0, "ma := stamp;".into(), &["ma", "stamp"]);
+    // segment B: middle reads and writes, then the (optional) fault
+    for (k, b) in case.binds.iter().enumerate() {
+        if b.addr.area == Area::I && case.partial.is_none() {
+            p.stmt(1, format!("rm{k} := b{k};"), &[&format!("rm{k}"), &format!("b{k}")]);
+        }
+    }
+    for (k, b) in case.binds.iter().enumerate() {
+        if b.addr.area.writes() {
+            p.stmt(1, format!("b{k} := sm{k};"), &[&format!("b{k}"), &format!("sm{k}")]);
+        }
+    }
+    p.stmt(1, "mb := stamp;".into(), &["mb", "stamp"]);
+    p.stmt(1, "IF trip THEN zq := zq / zz; END_IF;".into(), &["trip", "zq", "zz"]);
+    // segment C: late writes (final values), last statements read the inputs again
+    p.stmt(2, "mc := stamp;".into(), &["mc", "stamp"]);
+    for (k, b) in case.binds.iter().enumerate() {
+        if b.addr.area.writes() {
+            p.stmt(2, format!("b{k} := sl{k};"), &[&format!("b{k}"), &format!("sl{k}")]);
+        }
+    }
+    if let Some(pa) = &case.partial {
+        // partial access on binding 0: write a part of an output/marker, read a part of an input
+        let acc = format!("b0.%{}{}", pa.kind, pa.idx);
+        if case.binds[0].addr.area.writes() {
+            p.stmt(2, format!("{acc} := pv;"), &["b0", "pv"]);
+        } else {
+            p.stmt(2, format!("pv := {acc};"), &["b0", "pv"]);
+        }
+    }
+    for (k, b) in case.binds.iter().enumerate() {
+        if b.addr.area == Area::I && case.partial.is_none() {
+            p.stmt(2, format!("rz{k} := b{k};"), &[&format!("rz{k}"), &format!("b{k}")]);
+        }
+    }
+    p
+}
+
+fn source_of(case: &Case) -> String {
+    let p = build_prog(case);
+    let mut s = String::new();
+    let decl = |v: &Var, wildcard: bool| -> String {
+        match &v.at {
+            Some(a) if wildcard => format!("  {} AT %{}* : {};\n", v.name, &a[1..2], v.ty),
+            Some(a) => format!("  {} AT {} : {};\n", v.name, a, v.ty),
+            None => format!("  {} : {};\n", v.name, v.ty),
+        }
+    };
+    let body = |segs: &[usize]| -> String {
+        let mut b = String::new();
+        for &g in segs {
+            for st in &p.seg[g] {
+                b.push_str(st);
+                b.push('\n');
+            }
+        }
+        b
+    };
+    match case.shape {
+        Shape::Local | Shape::VarCfg => {
+            s.push_str("PROGRAM Main\nVAR\n");
+            for v in &p.vars {
+                s.push_str(&decl(v, case.shape == Shape::VarCfg));
+            }
+            s.push_str("END_VAR\n");
+            s.push_str(&body(&[0, 1, 2]));
+            s.push_str("END_PROGRAM\n");
+            if case.shape == Shape::VarCfg {
+                s.push_str("CONFIGURATION Conf\nPROGRAM P1 : Main;\nVAR_CONFIG\n");
+                for v in &p.vars {
+                    if let Some(a) = &v.at {
+                        s.push_str(&format!("  P1.{} AT {} : {};\n", v.name, a, v.ty));
+                    }
+                }
+                s.push_str("END_VAR\nEND_CONFIGURATION\n");
+            }
+        }
+        Shape::Fb => {
+            s.push_str("FUNCTION_BLOCK Blk\nVAR\n");
+            for v in &p.vars {
+                s.push_str(&decl(v, false));
+            }
+            s.push_str("END_VAR\n");
+            s.push_str(&body(&[0, 1, 2]));
+            s.push_str("END_FUNCTION_BLOCK\nPROGRAM Main\nVAR\n  fb : Blk;\nEND_VAR\nfb();\nEND_PROGRAM\n");
+        }
+        Shape::Tasks => {
+            s.push_str("CONFIGURATION Conf\nVAR_GLOBAL\n");
+            for v in &p.vars {
+                s.push_str(&decl(v, false));
+            }
+            s.push_str("END_VAR\nTASK TA (INTERVAL := T#10ms, PRIORITY := 0);\nTASK TB (INTERVAL := T#10ms, PRIORITY := 1);\nPROGRAM PA WITH TA : ProgA;\nPROGRAM PB WITH TB : ProgB;\nPROGRAM PC : ProgC;\nEND_CONFIGURATION\n");
+            for (g, name) in ["ProgA", "ProgB", "ProgC"].iter().enumerate() {
+                s.push_str(&format!("PROGRAM {name}\nVAR_EXTERNAL\n"));
+                for u in &p.uses[g] {
+                    let v = p.vars.iter().find(|v| &v.name == u).expect("declared");
+                    s.push_str(&format!("  {} : {};\n", v.name, v.ty));
+                }
+                s.push_str("END_VAR\n");
+                s.push_str(&body(&[g]));
+                s.push_str("END_PROGRAM\n");
+            }
+        }
+    }
+    s
+}
+
+// ------------------------------------------------------------------------------------------
+// instrumented driver
+// ------------------------------------------------------------------------------------------
+
+#[derive(Clone, Debug)]
+enum Ev {
+    Read { drv: usize, n: u32 },
+    Write { drv: usize, image: Vec<u8> },
+}
+
+#[derive(Default)]
+struct Shared {
+    events: Vec<Ev>,
+    calls: Vec<u32>,
+}
+
+struct LogDriver {
+    id: usize,
+    ndrv: usize,
+    sh: Arc<Mutex<Shared>>,
+}
+
+fn region(id: usize, ndrv: usize, len: usize) -> std::ops::Range<usize> {
+    if ndrv == 1 {
+        0..len
+    } else if id == 0 {
+        0..SPLIT.min(len)
+    } else {
+        SPLIT.min(len)..len
+    }
+}
+
+impl IoDriver for LogDriver {
+    fn read_inputs(&mut self, inputs: &mut [u8]) -> Result<(), RuntimeError> {
+        let mut sh = self.sh.lock().unwrap();
+        let n = sh.calls[self.id];
+        sh.calls[self.id] += 1;
+        for i in region(self.id, self.ndrv, inputs.len()) {
+            inputs[i] = in_pat(self.id, n, i);
+        }
+        sh.events.push(Ev::Read { drv: self.id, n });
+        Ok(())
+    }
+    fn write_outputs(&mut self, outputs: &[u8]) -> Result<(), RuntimeError> {
+        let mut sh = self.sh.lock().unwrap();
+        sh.events.push(Ev::Write { drv: self.id, image: outputs.to_vec() });
+        Ok(())
+    }
+}
+
+// ------------------------------------------------------------------------------------------
+// oracle helpers
+// ------------------------------------------------------------------------------------------
+
+struct WriteSpec {
+    addr: Addr,
+    ty: &'static Ty,
+    fin: u64,
+    /// other values the span could wrongly carry: (label, bits)
+    alts: Vec<(&'static str, u64)>,
+}
+
+fn apply_writes(base: &[u8], ws: &[WriteSpec], order: &[usize]) -> Vec<u8> {
+    let mut img = base.to_vec();
+    for &i in order {
+        img_put(&mut img, &ws[i].addr, ws[i].fin);
+    }
+    img
+}
+
+fn orders(n: usize) -> Vec<Vec<usize>> {
+    match n {
+        0 => vec![vec![]],
+        1 => vec![vec![0]],
+        2 => vec![vec![0, 1], vec![1, 0]],
+        _ => {
+            // not used by the current families (at most two bindings per area)
+            let mut out = Vec::new();
+            let mut idx: Vec<usize> = (0..n).collect();
+            permute(&mut idx, 0, &mut out);
+            out
+        }
+    }
+}
+
+fn permute(idx: &mut Vec<usize>, k: usize, out: &mut Vec<Vec<usize>>) {
+    if k == idx.len() {
+        out.push(idx.clone());
+        return;
+    }
+    for i in k..idx.len() {
+        idx.swap(k, i);
+        permute(idx, k + 1, out);
+        idx.swap(k, i);
+    }
+}
+
+/// Compares an image (as given to a driver / found in the runtime) with the reference model:
+/// `base` with the final values of all bound variables of this area written into their spans,
+/// in any order. Ok(order index) or Err((signature tail, description)).
+fn check_image(area: Area, base: &[u8], got: &[u8], ws: &[WriteSpec]) -> Result<usize, (String, String)> {
+    let a = area.ch();
+    if got.len() != base.len() {
+        return Err((
+            format!("locality/%{a}:image-length"),
+            format!("image length changed from {} to {}", base.len(), got.len()),
+        ));
+    }
+    let ords = orders(ws.len());
+    for (oi, ord) in ords.iter().enumerate() {
+        if apply_writes(base, ws, ord) == got {
+            return Ok(oi);
+        }
+    }
+    let nbits = base.len() * 8;
+    let mut cover = vec![0u8; nbits];
+    for w in ws {
+        let (s, e) = w.addr.bit_span();
+        for c in cover.iter_mut().take(e.min(nbits)).skip(s) {
+            *c += 1;
+        }
+    }
+    // 1. locality: a bit outside every addressed span changed
+    for pos in 0..nbits {
+        if cover[pos] == 0 && bit_at(got, pos) != bit_at(base, pos) {
+            if ws.is_empty() {
+                return Err((
+                    format!("locality/%{a}:no-binding"),
+                    format!("byte {} of the %{a} image changed from {:02x} to {:02x} although nothing is bound in this area", pos / 8, base[pos / 8], got[pos / 8]),
+                ));
+            }
+            let mut best: Option<(usize, &WriteSpec, &'static str)> = None;
+            for w in ws {
+                let (s, e) = w.addr.bit_span();
+                let (d, lab) = if pos < s {
+                    (s - pos, if w.addr.size == Size::X && pos / 8 == w.addr.byte { "same-byte" } else { "before" })
+                } else {
+                    (pos + 1 - e, if w.addr.size == Size::X && pos / 8 == w.addr.byte { "same-byte" } else { "after" })
+                };
+                if best.as_ref().map(|b| d < b.0).unwrap_or(true) {
+                    best = Some((d, w, lab));
+                }
+            }
+            let (_, w, lab) = best.unwrap();
+            return Err((
+                format!("locality/{}:{lab}", w.addr.tag()),
+                format!(
+                    "bit {} of byte {} (outside every bound span; nearest binding {} : {}) changed: image before [{}], after [{}]",
+                    pos % 8, pos / 8, w.addr.text(), w.ty.name, hex(base), hex(got)
+                ),
+            ));
+        }
+    }
+    // 2. whole-image hypotheses: every span carries the value of one earlier phase, or some
+    //    values are byte-reversed. One-bit values cannot tell hypotheses apart, so a set of
+    //    bit bindings only gets the neutral diagnosis of step 3.
+    let with = |f: &dyn Fn(usize, &WriteSpec) -> u64| -> Vec<WriteSpec> {
+        ws.iter().enumerate().map(|(i, x)| WriteSpec { addr: x.addr, ty: x.ty, fin: f(i, x), alts: Vec::new() }).collect()
+    };
+    let matches = |cand: &[WriteSpec]| ords.iter().any(|ord| apply_writes(base, cand, ord) == got);
+    let wide = ws.iter().any(|w| w.addr.size != Size::X);
+    if wide {
+        for lab in ["untouched-image", "cycle-start", "mid", "early"] {
+            if !ws.iter().any(|w| w.addr.size != Size::X && w.alts.iter().any(|(l, _)| *l == lab)) {
+                continue;
+            }
+            let cand = with(&|_, x| x.alts.iter().find(|(l, _)| *l == lab).map(|(_, v)| *v).unwrap_or(x.fin));
+            if matches(&cand) {
+                return Err((
+                    format!("publish/%{a}:stale:{lab}"),
+                    format!(
+                        "the bound spans carry the {lab} values instead of the final values {}; image [{}]",
+                        ws.iter().map(|w| format!("{}={:#x}", w.addr.text(), w.fin)).collect::<Vec<_>>().join(", "),
+                        hex(got)
+                    ),
+                ));
+            }
+        }
+        for mask in 1u32..(1 << ws.len()) {
+            let Some(w) = ws.iter().enumerate().find(|(i, w)| mask >> i & 1 == 1 && w.addr.size.bits() > 8).map(|(_, w)| w) else {
+                continue;
+            };
+            let cand = with(&|i, x| if mask >> i & 1 == 1 { rev_bytes(x.addr.size, x.fin) } else { x.fin });
+            if matches(&cand) {
+                return Err((
+                    format!("publish/{}:byte-order", w.addr.tag()),
+                    format!("{} : {} holds its final value {:#x} with reversed byte order; image [{}]", w.addr.text(), w.ty.name, w.fin, hex(got)),
+                ));
+            }
+        }
+    }
+    // 3. per binding: its own (exclusive) bits do not encode its final value
+    for w in ws {
+        let (s, e) = w.addr.bit_span();
+        let excl: Vec<usize> = (s..e.min(nbits)).filter(|&p| cover[p] == 1).collect();
+        if excl.is_empty() {
+            continue;
+        }
+        let mut t = base.to_vec();
+        img_put(&mut t, &w.addr, w.fin);
+        if excl.iter().all(|&p| bit_at(&t, p) == bit_at(got, p)) {
+            continue;
+        }
+        if w.addr.size == Size::X {
+            return Err((
+                "publish/X:mismatch".to_string(),
+                format!("bit {} of byte {} is {} but the final value of {} is {}; image [{}]", w.addr.bit, w.addr.byte, bit_at(got, s) as u8, w.addr.text(), w.fin, hex(got)),
+            ));
+        }
+        return Err((
+            format!("publish/{}:{}:encode", w.addr.tag(), w.ty.name),
+            format!(
+                "span of {} : {} does not encode the final value {:#x} (little-endian expected [{}]); image [{}]",
+                w.addr.text(), w.ty.name, w.fin, hex(&apply_writes(base, ws, &ords[0])), hex(got)
+            ),
+        ));
+    }
+    // 4. only the overlapping part is wrong
+    let tags: Vec<String> = ws.iter().map(|w| w.addr.size.ch().to_string()).collect();
+    Err((
+        format!("publish/overlap:{}", tags.join("+")),
+        format!(
+            "overlapping spans {} hold neither serialisation of the final values; expected [{}] or the other order, image [{}]",
+            ws.iter().map(|w| format!("{}={:#x}", w.addr.text(), w.fin)).collect::<Vec<_>>().join(", "),
+            hex(&apply_writes(base, ws, &ords[0])), hex(got)
+        ),
+    ))
+}
+
+/// A variable read by the program against the latched image.
+fn check_latch(
+    b: &Bind,
+    observed: Option<u64>,
+    latched: &[u8],
+    alts: &[(&'static str, &[u8])],
+    var_before: Option<u64>,
+    readpos: &str,
+) -> Option<(String, String)> {
+    let exp = img_get(latched, &b.addr);
+    if observed == Some(exp) {
+        return None;
+    }
+    let a = b.addr.area.ch();
+    let obs_txt = observed.map(|o| format!("{o:#x}")).unwrap_or_else(|| "<no numeric value>".into());
+    if b.addr.size == Size::X {
+        // a one-bit value cannot tell a stale image from a wrong bit index: neutral diagnosis
+        return Some((
+            "latch/X:mismatch".to_string(),
+            format!("{readpos} read of {} saw {obs_txt} but bit {} of byte {} of the latched image [{}] is {exp}", b.addr.text(), b.addr.bit, b.addr.byte, hex(latched)),
+        ));
+    }
+    if let Some(o) = observed {
+        for (lab, img) in alts {
+            if img_get(img, &b.addr) == o {
+                return Some((
+                    format!("latch/%{a}:stale:{lab}"),
+                    format!(
+                        "{readpos} read of {} : {} saw {obs_txt}, the value of the {lab} image, instead of {exp:#x} from this cycle's latched image [{}]",
+                        b.addr.text(), b.ty.name, hex(latched)
+                    ),
+                ));
+            }
+        }
+        if var_before == Some(o) {
+            return Some((
+                format!("latch/%{a}:stale:not-refreshed"),
+                format!(
+                    "{readpos} read of {} : {} saw {obs_txt}, the value the variable already had before the cycle, instead of {exp:#x} from the image [{}]",
+                    b.addr.text(), b.ty.name, hex(latched)
+                ),
+            ));
+        }
+        if b.addr.size.bits() > 8 && rev_bytes(b.addr.size, exp) == o {
+            return Some((
+                format!("latch/{}:byte-order", b.addr.tag()),
+                format!("{} : {} decoded with reversed byte order: saw {obs_txt}, expected {exp:#x}; image [{}]", b.addr.text(), b.ty.name, hex(latched)),
+            ));
+        }
+    }
+    Some((
+        format!("latch/{}:{}:decode", b.addr.tag(), b.ty.name),
+        format!(
+            "{readpos} read of {} : {} saw {obs_txt}, expected {exp:#x} = little-endian decode of the latched image [{}]",
+            b.addr.text(), b.ty.name, hex(latched)
+        ),
+    ))
+}
+
+fn norm_msg(m: &str) -> String {
+    let s: String = m.chars().map(|c| if c.is_ascii_digit() { '#' } else { c }).collect();
+    s.chars().take(60).collect()
+}
+
+fn err_name(e: &RuntimeError) -> String {
+    let d = format!("{e:?}");
+    d.split(|c: char| !c.is_ascii_alphanumeric()).next().unwrap_or("").to_string()
+}
+
+// ------------------------------------------------------------------------------------------
+// execution of one binding case
+// ------------------------------------------------------------------------------------------
+
+#[derive(Default, Debug, Clone)]
+struct Stats {
+    rejected: Option<String>,
+    normal_cycles_checked: u64,
+    latch_comparisons: u64,
+    publish_comparisons: u64,
+    fault_cycles_checked: u64,
+    fault_value_was_visible: u64,
+    overlap_conflicts: u64,
+    order_decl_wins_last: u64,
+    order_decl_wins_first: u64,
+    exchange_fault: Option<String>,
+    image_changed: bool,
+}
+
+enum Home {
+    Global,
+    Inst(InstanceId),
+}
+
+fn get_var(rt: &Runtime, home: &Home, name: &str) -> Option<Value> {
+    match home {
+        Home::Global => rt.storage().get_global(name).cloned(),
+        Home::Inst(id) => rt.storage().get_instance_var(*id, name).cloned(),
+    }
+}
+
+fn set_var(rt: &mut Runtime, home: &Home, name: &str, v: Value) -> Result<(), String> {
+    match home {
+        Home::Global => {
+            if rt.storage().get_global(name).is_none() {
+                return Err(format!("global {name} missing"));
+            }
+            rt.storage_mut().set_global(name, v);
+            Ok(())
+        }
+        Home::Inst(id) => {
+            if rt.storage().get_instance_var(*id, name).is_none() {
+                return Err(format!("instance variable {name} missing"));
+            }
+            rt.storage_mut().set_instance_var(*id, name, v);
+            Ok(())
+        }
+    }
+}
+
+fn find_home(rt: &Runtime, shape: Shape) -> Result<Home, String> {
+    let inst = |name: &str| -> Result<InstanceId, String> {
+        match rt.storage().get_global(name) {
+            Some(Value::Instance(id)) => Ok(*id),
+            other => Err(format!("program instance {name} not found: {other:?}")),
+        }
+    };
+    Ok(match shape {
+        Shape::Tasks => Home::Global,
+        Shape::Local => Home::Inst(inst("Main")?),
+        Shape::VarCfg => Home::Inst(inst("P1")?),
+        Shape::Fb => {
+            let main = inst("Main")?;
+            match rt.storage().get_instance_var(main, "fb") {
+                Some(Value::Instance(id)) => Home::Inst(*id),
+                other => return Err(format!("fb instance not found: {other:?}")),
+            }
+        }
+    })
+}
+
+struct CaseRun {
+    viols: Vec<Violation>,
+    stats: Stats,
+}
+
+/// Err = machinery problem (the harness itself did not behave as designed).
+fn run_case(case: &Case) -> Result<CaseRun, String> {
+    let mut stats = Stats::default();
+    let mut viols: Vec<Violation> = Vec::new();
+    let src = source_of(case);
+    let case_json = |cycle: usize| -> J {
+        let mut j = case.to_json();
+        j["source"] = json!(src);
+        j["cycle"] = json!(cycle);
+        j
+    };
+    let push = |viols: &mut Vec<Violation>, tail: String, what: String, cycle: usize| {
+        let sig = format!("C07/{tail}");
+        if !viols.iter().any(|v| v.signature == sig) {
+            viols.push(Violation {
+                signature: sig,
+                what: format!("{what} (family {}, shape {}, {} driver(s), cycle {cycle})", case.family, case.shape.name(), case.drivers),
+                case: case_json(cycle),
+            });
+        }
+    };
+
+    let mut h = match catch(|| TestHarness::from_source(&src)) {
+        Ok(Ok(h)) => h,
+        Ok(Err(e)) => {
+            stats.rejected = Some(e.to_string().lines().next().unwrap_or("").to_string());
+            return Ok(CaseRun { viols, stats });
+        }
+        Err(m) => {
+            push(&mut viols, format!("panic/compile/{}", norm_msg(&m)), format!("compiler panicked: {m}"), 0);
+            return Ok(CaseRun { viols, stats });
+        }
+    };
+    let rt = h.runtime_mut();
+    let home = find_home(rt, case.shape)?;
+    rt.io_mut().resize(IMG, IMG, IMG);
+    for b in rt.io_mut().inputs_mut() {
+        *b = PREFILL;
+    }
+    for b in rt.io_mut().outputs_mut() {
+        *b = PREFILL;
+    }
+    for b in rt.io_mut().memory_mut() {
+        *b = PREFILL;
+    }
+    let sh = Arc::new(Mutex::new(Shared { events: Vec::new(), calls: vec![0; case.drivers] }));
+    for id in 0..case.drivers {
+        rt.add_io_driver(format!("d{id}"), Box::new(LogDriver { id, ndrv: case.drivers, sh: sh.clone() }));
+    }
+
+    let mut model_in = vec![PREFILL; IMG];
+    let mut last_pub: Vec<Vec<u8>> = vec![vec![PREFILL; IMG]; case.drivers];
+    let mut prev_mem_end = vec![PREFILL; IMG];
+    let mut faulted_at: Option<usize> = None;
+    // values the program had computed when it faulted: per binding
+    let mut fault_vals: Vec<Vec<u64>> = Vec::new();
+    let mut fault_var_before: Vec<Option<u64>> = Vec::new();
+    let has_m = case.binds.iter().any(|b| b.addr.area == Area::M);
+    let expected_pattern: String = (0..case.drivers).map(|d| format!("R{d}")).chain((0..case.drivers).map(|d| format!("W{d}"))).collect();
+
+    for c in 1..=3usize {
+        let is_fault_cycle = faulted_at.is_none() && case.fault_cycle == c;
+        // ---- stimulus -------------------------------------------------------------------
+        if faulted_at.is_none() {
+            set_var(rt, &home, "stamp", Value::Int(c as i16))?;
+            set_var(rt, &home, "trip", Value::Bool(is_fault_cycle))?;
+            for (k, b) in case.binds.iter().enumerate() {
+                if b.addr.area.writes() {
+                    for (ph, n) in ["se", "sm", "sl"].iter().enumerate() {
+                        set_var(rt, &home, &format!("{n}{k}"), mk_value(b.ty, src_bits(b.ty, k, c, ph, case.fault_cycle)))?;
+                    }
+                }
+            }
+            if let Some(pa) = &case.partial {
+                if case.binds[0].addr.area.writes() {
+                    // the part written is the complement of what the whole-variable write leaves there
+                    let whole = src_bits(case.binds[0].ty, 0, c, 2, case.fault_cycle);
+                    let cur = (whole >> (pa.idx * pa.size().bits())) & pa.size().mask();
+                    set_var(rt, &home, "pv", mk_value(bits_type(pa.size()), !cur))?;
+                }
+            }
+            if has_m {
+                for (i, b) in rt.io_mut().memory_mut().iter_mut().enumerate() {
+                    *b = mem_pat(c, i);
+                }
+            }
+        }
+        let out_before = rt.io().outputs().to_vec();
+        let mem_before = rt.io().memory().to_vec();
+        let var_before: Vec<Option<u64>> = case
+            .binds
+            .iter()
+            .enumerate()
+            .map(|(k, b)| get_var(rt, &home, &format!("b{k}")).and_then(|v| value_bits(b.ty, &v)))
+            .collect();
+        rt.advance_time(Duration::from_millis(10));
+        let res = match catch(|| rt.execute_cycle()) {
+            Ok(r) => r,
+            Err(m) => {
+                push(&mut viols, format!("panic/cycle/{}", norm_msg(&m)), format!("execute_cycle panicked: {m}"), c);
+                return Ok(CaseRun { viols, stats });
+            }
+        };
+        let events: Vec<Ev> = std::mem::take(&mut sh.lock().unwrap().events);
+        let pattern: String = events
+            .iter()
+            .map(|e| match e {
+                Ev::Read { drv, .. } => format!("R{drv}"),
+                Ev::Write { drv, .. } => format!("W{drv}"),
+            })
+            .collect();
+        // model of the input image: first read of each driver = the latch; all reads = "later"
+        let model_prev = model_in.clone();
+        let mut model_first = model_in.clone();
+        let mut seen = vec![false; case.drivers];
+        for e in &events {
+            if let Ev::Read { drv, n } = e {
+                for i in region(*drv, case.drivers, IMG) {
+                    let v = in_pat(*drv, *n, i);
+                    model_in[i] = v;
+                    if !seen[*drv] {
+                        model_first[i] = v;
+                    }
+                }
+                seen[*drv] = true;
+            }
+        }
+        let writes: Vec<(usize, &Vec<u8>)> = events
+            .iter()
+            .filter_map(|e| match e {
+                Ev::Write { drv, image } => Some((*drv, image)),
+                _ => None,
+            })
+            .collect();
+
+        // ---- cycles at / after the fault --------------------------------------------------
+        if is_fault_cycle || faulted_at.is_some() {
+            if is_fault_cycle {
+                match &res {
+                    Err(RuntimeError::DivisionByZero) => {}
+                    Err(other) => {
+                        // some other fault came first (exchange fault): nothing to check here
+                        stats.exchange_fault = Some(format!("{}:{}", bind_tags(case), err_name(other)));
+                        return Ok(CaseRun { viols, stats });
+                    }
+                    Ok(()) => return Err(format!("trip did not fault in cycle {c}: {}", case.to_json())),
+                }
+                faulted_at = Some(c);
+                fault_var_before = var_before.clone();
+                fault_vals = case
+                    .binds
+                    .iter()
+                    .enumerate()
+                    .map(|(k, b)| vec![src_bits(b.ty, k, c, 0, case.fault_cycle), src_bits(b.ty, k, c, 1, case.fault_cycle)])
+                    .collect();
+                // the interesting branch: the early/mid writes really happened before the fault
+                let visible = case.binds.iter().enumerate().any(|(k, b)| {
+                    b.addr.area == Area::Q
+                        && get_var(rt, &home, &format!("b{k}")).and_then(|v| value_bits(b.ty, &v)) == Some(fault_vals[k][1])
+                });
+                if visible {
+                    stats.fault_value_was_visible += 1;
+                }
+                let mb = get_var(rt, &home, "mb").and_then(|v| value_bits(&TYPES[6], &v));
+                let mc = get_var(rt, &home, "mc").and_then(|v| value_bits(&TYPES[6], &v));
+                if mb != Some(c as u64) || mc == Some(c as u64) {
+                    return Err(format!("fault cycle {c}: segment B did not run or segment C ran (mb={mb:?}, mc={mc:?}): {}", case.to_json()));
+                }
+                // inputs are still asked for exactly once before the program
+                let reads: String = events.iter().filter_map(|e| if let Ev::Read { drv, .. } = e { Some(format!("R{drv}")) } else { None }).collect();
+                let exp_reads: String = (0..case.drivers).map(|d| format!("R{d}")).collect();
+                if reads != exp_reads {
+                    push(&mut viols, calls_tail(&events, case.drivers, false), format!("driver calls in the faulting cycle were [{pattern}], expected reads [{exp_reads}] once each before the program"), c);
+                }
+            }
+            stats.fault_cycles_checked += 1;
+            let when = if is_fault_cycle { "fault-cycle" } else { "after-fault" };
+            for (drv, image) in &writes {
+                if image.len() != IMG {
+                    continue;
+                }
+                let mut cover = vec![0u8; IMG * 8];
+                for b in case.binds.iter().filter(|b| b.addr.area == Area::Q) {
+                    let (s, e) = b.addr.bit_span();
+                    for x in cover.iter_mut().take(e).skip(s) {
+                        *x += 1;
+                    }
+                }
+                for (k, b) in case.binds.iter().enumerate() {
+                    if b.addr.area != Area::Q {
+                        continue;
+                    }
+                    let (s, e) = b.addr.bit_span();
+                    let mut bits: Vec<usize> = (s..e).filter(|&p| cover[p] == 1).collect();
+                    if bits.is_empty() {
+                        bits = (s..e).collect();
+                    }
+                    let lp = &last_pub[*drv];
+                    if bits.iter().all(|&p| bit_at(image, p) == bit_at(lp, p)) {
+                        continue;
+                    }
+                    for v in &fault_vals[k] {
+                        if Some(*v) == fault_var_before[k] {
+                            continue;
+                        }
+                        let mut t = lp.clone();
+                        img_put(&mut t, &b.addr, *v);
+                        if bits.iter().all(|&p| bit_at(&t, p) == bit_at(image, p)) {
+                            push(
+                                &mut viols,
+                                format!("fault-publish/{when}"),
+                                format!(
+                                    "driver {drv} was given an output image in which {} : {} carries {v:#x}, a value the program computed in the faulted cycle; last image before the fault [{}], image given [{}]",
+                                    b.addr.text(), b.ty.name, hex(lp), hex(image)
+                                ),
+                                c,
+                            );
+                        }
+                    }
+                }
+            }
+            continue;
+        }
+
+        // ---- normal cycle -----------------------------------------------------------------
+        if let Err(e) = &res {
+            // a fault raised by the exchange itself: the statement allows a faulted cycle to
+            // publish nothing; recorded, not reported (vacuity is guarded per type in `run`)
+            stats.exchange_fault = Some(format!("{}:{}", bind_tags(case), err_name(e)));
+            return Ok(CaseRun { viols, stats });
+        }
+        let i16t = &TYPES[6];
+        for n in ["ma", "mb", "mc"] {
+            let v = get_var(rt, &home, n).and_then(|v| value_bits(i16t, &v));
+            if v != Some(c as u64) {
+                return Err(format!("cycle {c}: segment marker {n} = {v:?}: not every program segment ran: {}", case.to_json()));
+            }
+        }
+        // (1) driver calls
+        if pattern != expected_pattern {
+            push(
+                &mut viols,
+                calls_tail(&events, case.drivers, true),
+                format!("driver calls during the cycle were [{pattern}], expected [{expected_pattern}] (each driver: one read_inputs before the program, one write_outputs after it, in registration order)"),
+                c,
+            );
+        }
+        // (2) latched values
+        let alts_in: Vec<(&'static str, &[u8])> = vec![("later-call", &model_in[..]), ("previous-cycle", &model_prev[..])];
+        let alts_mem: Vec<(&'static str, &[u8])> = vec![("previous-cycle-end", &prev_mem_end[..])];
+        if case.partial.is_none() {
+            for (k, b) in case.binds.iter().enumerate() {
+                let (latched, alts, names): (&[u8], &[(&'static str, &[u8])], Vec<(&str, String)>) = match b.addr.area {
+                    Area::I => (&model_first[..], &alts_in[..], vec![("first", format!("ra{k}")), ("middle", format!("rm{k}")), ("last", format!("rz{k}"))]),
+                    Area::M => (&mem_before[..], &alts_mem[..], vec![("first", format!("ra{k}"))]),
+                    Area::Q => continue,
+                };
+                // the same diagnosis at several read positions is one finding: positions are joined
+                let mut found: Vec<(String, String, Vec<&str>)> = Vec::new();
+                for (pos, name) in names {
+                    let obs = get_var(rt, &home, &name).and_then(|v| value_bits(b.ty, &v));
+                    stats.latch_comparisons += 1;
+                    if let Some((tail, what)) = check_latch(b, obs, latched, alts, var_before[k], pos) {
+                        match found.iter_mut().find(|f| f.0 == tail) {
+                            Some(f) => f.2.push(pos),
+                            None => found.push((tail, what, vec![pos])),
+                        }
+                    }
+                }
+                for (tail, what, poss) in found {
+                    let tail = if tail.contains(":stale:") { format!("{tail}:{}", poss.join("+")) } else { tail };
+                    push(&mut viols, tail, what, c);
+                }
+                if img_get(latched, &b.addr) != img_get(&[PREFILL; IMG], &b.addr) {
+                    stats.image_changed = true;
+                }
+            }
+        }
+        // (3) reading must not modify the input image
+        if rt.io().inputs() != &model_first[..] && pattern == expected_pattern {
+            push(
+                &mut viols,
+                "locality/%I:image-modified".into(),
+                format!("input image after the cycle [{}] differs from what the drivers supplied [{}]", hex(rt.io().inputs()), hex(&model_first)),
+                c,
+            );
+        }
+        // (4)+(5) published outputs and marker image
+        let mut specs: BTreeMap<Area, Vec<WriteSpec>> = BTreeMap::new();
+        specs.insert(Area::Q, Vec::new());
+        specs.insert(Area::M, Vec::new());
+        for (k, b) in case.binds.iter().enumerate() {
+            if !b.addr.area.writes() {
+                continue;
+            }
+            let fin = get_var(rt, &home, &format!("b{k}")).and_then(|v| value_bits(b.ty, &v));
+            let late = src_bits(b.ty, k, c, 2, case.fault_cycle);
+            let mut want = late;
+            if k == 0 {
+                if let Some(pa) = &case.partial {
+                    let sh = pa.idx * pa.size().bits();
+                    let m = pa.size().mask() << sh;
+                    want = (late & !m) | ((!late) & m);
+                }
+            }
+            let Some(fin) = fin else {
+                return Err(format!("cycle {c}: b{k} has no numeric value: {}", case.to_json()));
+            };
+            if fin != want {
+                match &case.partial {
+                    None => return Err(format!("cycle {c}: b{k} = {fin:#x} after the cycle, the late write should have left {want:#x}: {}", case.to_json())),
+                    Some(pa) => push(
+                        &mut viols,
+                        format!("partial/write:%{}@{}", pa.kind, b.addr.tag()),
+                        format!(
+                            "b0 := {late:#x}; b0.%{}{} := {:#x} left b0 = {fin:#x}, expected {want:#x} (part {} counted from the least significant end)",
+                            pa.kind, pa.idx, (want >> (pa.idx * pa.size().bits())) & pa.size().mask(), pa.idx
+                        ),
+                        c,
+                    ),
+                }
+            }
+            let base = if b.addr.area == Area::Q { &out_before } else { &mem_before };
+            let mut alts = vec![
+                ("early", src_bits(b.ty, k, c, 0, case.fault_cycle)),
+                ("mid", src_bits(b.ty, k, c, 1, case.fault_cycle)),
+            ];
+            if let Some(vb) = var_before[k] {
+                alts.push(("cycle-start", vb));
+            }
+            alts.push(("untouched-image", img_get(base, &b.addr)));
+            alts.retain(|(_, v)| *v != fin);
+            specs.get_mut(&b.addr.area).unwrap().push(WriteSpec { addr: b.addr, ty: b.ty, fin, alts });
+        }
+        let qspecs = &specs[&Area::Q];
+        let mut images: Vec<(String, &[u8])> = writes.iter().map(|(d, img)| (format!("given to driver {d}"), &img[..])).collect();
+        images.push(("Runtime::io().outputs()".to_string(), rt.io().outputs()));
+        for (label, img) in &images {
+            stats.publish_comparisons += 1;
+            match check_image(Area::Q, &out_before, img, qspecs) {
+                Ok(oi) => {
+                    if qspecs.len() == 2 {
+                        let a = apply_writes(&out_before, qspecs, &[0, 1]);
+                        let b = apply_writes(&out_before, qspecs, &[1, 0]);
+                        if a != b {
+                            stats.overlap_conflicts += 1;
+                            if oi == 0 {
+                                stats.order_decl_wins_last += 1;
+                            } else {
+                                stats.order_decl_wins_first += 1;
+                            }
+                        }
+                    }
+                    if *img != &out_before[..] {
+                        stats.image_changed = true;
+                    }
+                }
+                Err((tail, what)) => push(&mut viols, tail, format!("output image {label}: {what}"), c),
+            }
+        }
+        for (d, img) in &writes {
+            last_pub[*d] = (*img).clone();
+        }
+        let mspecs = &specs[&Area::M];
+        stats.publish_comparisons += 1;
+        match check_image(Area::M, &mem_before, rt.io().memory(), mspecs) {
+            Ok(_) => {
+                if rt.io().memory() != &mem_before[..] {
+                    stats.image_changed = true;
+                }
+            }
+            Err((tail, what)) => push(&mut viols, tail, format!("marker image after the cycle: {what}"), c),
+        }
+        prev_mem_end = rt.io().memory().to_vec();
+        // partial read of an input
+        if let Some(pa) = &case.partial {
+            let b = &case.binds[0];
+            if b.addr.area == Area::I {
+                let sub = pa.sub_addr(&b.addr);
+                let pt = bits_type(pa.size());
+                let obs = get_var(rt, &home, "pv").and_then(|v| value_bits(pt, &v));
+                let whole = get_var(rt, &home, "b0").and_then(|v| value_bits(b.ty, &v));
+                stats.latch_comparisons += 2;
+                stats.image_changed = true;
+                // the whole variable against the latched image (generic latch diagnosis)
+                if let Some((tail, what)) = check_latch(b, whole, &model_first, &alts_in, var_before[0], "end-of-cycle") {
+                    let tail = if tail.contains(":stale:") { format!("{tail}:end-of-cycle") } else { tail };
+                    push(&mut viols, tail, what, c);
+                }
+                // the part against the whole variable; with a correct latch this is `sub` of the image
+                if let Some(w) = whole {
+                    let exp = (w >> (pa.idx * pa.size().bits())) & pa.size().mask();
+                    if obs != Some(exp) {
+                        push(
+                            &mut viols,
+                            format!("partial/read:%{}@{}", pa.kind, b.addr.tag()),
+                            format!(
+                                "b0.%{}{} of b0 = {w:#x} (AT {} : {}) read {:?}, expected {exp:#x} (= {} of the image)",
+                                pa.kind, pa.idx, b.addr.text(), b.ty.name, obs, sub.text()
+                            ),
+                            c,
+                        );
+                    }
+                }
+            }
+        }
+        stats.normal_cycles_checked += 1;
+    }
+    Ok(CaseRun { viols, stats })
+}
+
+/// Cause features of a wrong driver-call sequence: the per-driver counts of the first driver that
+/// deviates from one read (and one write), or the order if every count is right.
+fn calls_tail(events: &[Ev], ndrv: usize, with_writes: bool) -> String {
+    for d in 0..ndrv {
+        let r = events.iter().filter(|e| matches!(e, Ev::Read { drv, .. } if *drv == d)).count();
+        let w = events.iter().filter(|e| matches!(e, Ev::Write { drv, .. } if *drv == d)).count();
+        if with_writes && (r != 1 || w != 1) {
+            return format!("calls/reads={r}:writes={w}");
+        }
+        if !with_writes && r != 1 {
+            return format!("calls/reads={r}");
+        }
+    }
+    let pattern: String = events
+        .iter()
+        .filter_map(|e| match e {
+            Ev::Read { drv, .. } => Some(format!("R{drv}")),
+            Ev::Write { drv, .. } if with_writes => Some(format!("W{drv}")),
+            _ => None,
+        })
+        .collect();
+    format!("calls/order:{pattern}")
+}
+
+fn bind_tags(case: &Case) -> String {
+    case.binds.iter().map(|b| format!("{}:{}", b.addr.tag(), b.ty.name)).collect::<Vec<_>>().join("+")
+}
+
+// ------------------------------------------------------------------------------------------
+// family `api`: IoInterface::read / write directly
+// ------------------------------------------------------------------------------------------
+
+fn api_value(size: Size, bits: u64) -> Value {
+    mk_value(bits_type(size), bits)
+}
+
+fn run_api(addr: &Addr, variant: usize) -> Vec<Violation> {
+    let mut out = Vec::new();
+    let case = json!({"family": "api", "addr": addr.text(), "variant": variant});
+    let r = catch(|| {
+        let mut v: Vec<(String, String)> = Vec::new();
+        let mut rt = Runtime::new();
+        rt.io_mut().resize(IMG, IMG, IMG);
+        let fill = |c: usize, i: usize| mem_pat(c + variant, i);
+        for (i, b) in rt.io_mut().inputs_mut().iter_mut().enumerate() {
+            *b = fill(0, i);
+        }
+        for (i, b) in rt.io_mut().outputs_mut().iter_mut().enumerate() {
+            *b = fill(2, i);
+        }
+        for (i, b) in rt.io_mut().memory_mut().iter_mut().enumerate() {
+            *b = fill(4, i);
+        }
+        let snap = |rt: &Runtime| [rt.io().inputs().to_vec(), rt.io().outputs().to_vec(), rt.io().memory().to_vec()];
+        let before = snap(&rt);
+        let ai = match addr.area {
+            Area::I => 0,
+            Area::Q => 1,
+            Area::M => 2,
+        };
+        let Ok(parsed) = IoAddress::parse(&addr.text()) else {
+            v.push((format!("api/parse:{}", addr.tag()), format!("IoAddress::parse rejected {}", addr.text())));
+            return v;
+        };
+        // read
+        let exp = img_get(&before[ai], addr);
+        match rt.io().read(&parsed) {
+            Ok(val) => {
+                let got = value_bits(bits_type(addr.size), &val);
+                if got != Some(exp) {
+                    v.push((
+                        format!("api/read:{}", addr.tag()),
+                        format!("IoInterface::read({}) = {val:?}, expected {exp:#x} from image [{}]", addr.text(), hex(&before[ai])),
+                    ));
+                }
+            }
+            Err(e) => v.push((format!("api/read-error:{}", addr.tag()), format!("IoInterface::read({}) failed: {e:?}", addr.text()))),
+        }
+        if snap(&rt) != before {
+            v.push((format!("api/read-modifies:{}", addr.tag()), format!("IoInterface::read({}) modified an image", addr.text())));
+        }
+        // write the complement of what is there (every addressed bit changes)
+        let newv = !exp & addr.size.mask();
+        match rt.io_mut().write(&parsed, api_value(addr.size, newv)) {
+            Ok(()) => {
+                let after = snap(&rt);
+                for x in 0..3 {
+                    let mut want = before[x].clone();
+                    if x == ai {
+                        img_put(&mut want, addr, newv);
+                    }
+                    if after[x] != want {
+                        let ws = [WriteSpec { addr: *addr, ty: bits_type(addr.size), fin: newv, alts: vec![] }];
+                        let area = AREAS[x];
+                        let specs: &[WriteSpec] = if x == ai { &ws } else { &[] };
+                        let (tail, what) = check_image(area, &before[x], &after[x], specs)
+                            .err()
+                            .unwrap_or(("api/write".into(), "image differs".into()));
+                        let tail = tail.strip_prefix("publish/").or(tail.strip_prefix("locality/")).unwrap_or(&tail).to_string();
+                        v.push((
+                            format!("api/write:{tail}"),
+                            format!("IoInterface::write({}, {newv:#x}): %{} image: {what}", addr.text(), area.ch()),
+                        ));
+                    }
+                }
+            }
+            Err(e) => v.push((format!("api/write-error:{}", addr.tag()), format!("IoInterface::write({}) failed: {e:?}", addr.text()))),
+        }
+        v
+    });
+    match r {
+        Ok(v) => {
+            for (tail, what) in v {
+                out.push(Violation { signature: format!("C07/{tail}"), what, case: case.clone() });
+            }
+        }
+        Err(m) => out.push(Violation {
+            signature: format!("C07/panic/api/{}", norm_msg(&m)),
+            what: format!("IoInterface access to {} panicked: {m}", addr.text()),
+            case,
+        }),
+    }
+    out
+}
+
+// ------------------------------------------------------------------------------------------
+// enumeration
+// ------------------------------------------------------------------------------------------
+
+fn spans_touch(a: &Addr, b: &Addr) -> bool {
+    let (s1, e1) = a.byte_span();
+    let (s2, e2) = b.byte_span();
+    s1 <= e2 && s2 <= e1
+}
+
+fn relation(a: &Addr, b: &Addr) -> &'static str {
+    if a == b {
+        return "same";
+    }
+    let (s1, e1) = a.bit_span();
+    let (s2, e2) = b.bit_span();
+    if s1 < e2 && s2 < e1 {
+        return "overlap";
+    }
+    let (bs1, be1) = a.byte_span();
+    let (bs2, be2) = b.byte_span();
+    if bs1 < be2 && bs2 < be1 {
+        "same-byte"
+    } else {
+        "adjacent"
+    }
+}
+
+struct Plan {
+    shapes_single: Vec<Shape>,
+    shapes_pair: Vec<Shape>,
+    shapes_partial: Vec<Shape>,
+    faults: Vec<usize>,
+    pair_all_types: bool,
+    pair_ordered: bool,
+    partial_offsets: Vec<usize>,
+}
+
+fn variants(shapes: &[Shape], faults: &[usize], has_q: bool, full: bool) -> Vec<(Shape, usize, usize)> {
+    // (shape, drivers, fault_cycle), simplest first
+    let mut v = Vec::new();
+    for &f in std::iter::once(&0).chain(faults.iter()) {
+        if f != 0 && !has_q {
+            continue;
+        }
+        for &sh in shapes {
+            for d in [1usize, 2] {
+                if !full {
+                    // reduced product: one driver for local/varcfg, two for tasks/fb
+                    let want = if matches!(sh, Shape::Local | Shape::VarCfg) { 1 } else { 2 };
+                    if d != want {
+                        continue;
+                    }
+                }
+                v.push((sh, d, f));
+            }
+        }
+    }
+    v
+}
+
+fn enumerate(plan: &Plan) -> Vec<Case> {
+    let mut cases = Vec::new();
+    // singles
+    let mut singles: Vec<Bind> = Vec::new();
+    for area in AREAS {
+        for addr in addresses(area) {
+            for ty in types_of(addr.size) {
+                singles.push(Bind { addr, ty });
+            }
+        }
+    }
+    for (sh, d, f) in variants(&plan.shapes_single, &plan.faults, true, true) {
+        for b in &singles {
+            if f != 0 && b.addr.area != Area::Q {
+                continue;
+            }
+            cases.push(Case { family: "single", shape: sh, drivers: d, fault_cycle: f, binds: vec![b.clone()], partial: None });
+        }
+    }
+    // partial access on a bound bit-string variable
+    for &sh in &plan.shapes_partial {
+        for area in AREAS {
+            for size in [Size::B, Size::W, Size::D, Size::L] {
+                for &byte in &plan.partial_offsets {
+                    let addr = Addr { area, size, byte, bit: 0 };
+                    for kind in ['X', 'B', 'W', 'D'] {
+                        let p = Partial { kind, idx: 0 };
+                        if p.size().bits() >= size.bits() {
+                            continue;
+                        }
+                        for idx in 0..size.bits() / p.size().bits() {
+                            cases.push(Case {
+                                family: "partial",
+                                shape: sh,
+                                drivers: 1,
+                                fault_cycle: 0,
+                                binds: vec![Bind { addr, ty: bits_type(size) }],
+                                partial: Some(Partial { kind, idx }),
+                            });
+                        }
+                    }
+                }
+            }
+        }
+    }
+    // the same address in all three areas
+    for (sh, d, f) in variants(&plan.shapes_pair, &plan.faults, true, false) {
+        for addr in addresses(Area::I) {
+            for ty in types_of(addr.size) {
+                let binds = AREAS.iter().map(|&a| Bind { addr: Addr { area: a, ..addr }, ty }).collect();
+                cases.push(Case { family: "tri", shape: sh, drivers: d, fault_cycle: f, binds, partial: None });
+            }
+        }
+    }
+    // pairs with overlapping or touching byte spans
+    for (sh, d, f) in variants(&plan.shapes_pair, &plan.faults, true, plan.pair_all_types) {
+        for area in AREAS {
+            if f != 0 && area != Area::Q {
+                continue;
+            }
+            let addrs = addresses(area);
+            for (i, a) in addrs.iter().enumerate() {
+                for (j, b) in addrs.iter().enumerate() {
+                    if !plan.pair_ordered && j < i {
+                        continue;
+                    }
+                    if !spans_touch(a, b) {
+                        continue;
+                    }
+                    let ta = types_of(a.size);
+                    let tb = types_of(b.size);
+                    if plan.pair_all_types {
+                        for x in &ta {
+                            for y in &tb {
+                                cases.push(Case { family: "pair", shape: sh, drivers: d, fault_cycle: f, binds: vec![Bind { addr: *a, ty: x }, Bind { addr: *b, ty: y }], partial: None });
+                            }
+                        }
+                    } else {
+                        // one type per member, rotating through the types of its size
+                        let x = ta[(i + j) % ta.len()];
+                        let y = tb[(i + 2 * j + 1) % tb.len()];
+                        cases.push(Case { family: "pair", shape: sh, drivers: d, fault_cycle: f, binds: vec![Bind { addr: *a, ty: x }, Bind { addr: *b, ty: y }], partial: None });
+                    }
+                }
+            }
+        }
+    }
+    cases
+}
+
+fn hash64(s: &str) -> u64 {
+    let mut h: u64 = 0xcbf29ce484222325;
+    for b in s.bytes() {
+        h ^= b as u64;
+        h = h.wrapping_mul(0x100000001b3);
+    }
+    h
+}
+
+pub fn run(ctx: &Ctx) -> EngineResult {
+    quiet_panics();
+    let mut rep = Report::new("exploration");
+    let deadline = Instant::now() + StdDuration::from_secs(ctx.tier.pick(38, 840));
+    let all = vec![Shape::Local, Shape::Tasks, Shape::VarCfg, Shape::Fb];
+    let plan = Plan {
+        shapes_single: all.clone(),
+        shapes_pair: all.clone(),
+        shapes_partial: ctx.tier.pick(vec![Shape::Local], vec![Shape::Local, Shape::Tasks]),
+        faults: ctx.tier.pick(vec![2], vec![1, 2, 3]),
+        pair_all_types: ctx.tier.pick(false, true),
+        pair_ordered: true,
+        partial_offsets: ctx.tier.pick(vec![0, 3], OFFSETS.to_vec()),
+    };
+    let mut evaluations = 0u64;
+    let mut exhaustive = true;
+
+    // ---- non-alphabet types: probed once, recorded, never reported --------------------------
+    let mut non_alpha = Vec::new();
+    for (name, sz) in NON_ALPHABET_TYPES {
+        for area in ['I', 'Q', 'M'] {
+            let src = format!("PROGRAM Main\nVAR\n  b0 AT %{area}{sz}0 : {name};\nEND_VAR\nEND_PROGRAM\n");
+            let outcome = match catch(|| TestHarness::from_source(&src).map(|mut h| {
+                h.runtime_mut().io_mut().resize(IMG, IMG, IMG);
+                h.runtime_mut().execute_cycle()
+            })) {
+                Ok(Ok(Ok(()))) => "cycle ok".to_string(),
+                Ok(Ok(Err(e))) => format!("cycle fault {}", err_name(&e)),
+                Ok(Err(_)) => "rejected by the compiler".to_string(),
+                Err(m) => format!("panic {}", norm_msg(&m)),
+            };
+            non_alpha.push(json!({"binding": format!("%{area}{sz}0 : {name}"), "outcome": outcome}));
+        }
+    }
+    rep.set("non_alphabet_types", J::Array(non_alpha));
+
+    // ---- family api -------------------------------------------------------------------------
+    let mut api_cases = 0u64;
+    for area in AREAS {
+        for addr in addresses(area) {
+            for variant in 0..2 {
+                api_cases += 1;
+                rep.violations_from(run_api(&addr, variant));
+            }
+        }
+    }
+    evaluations += api_cases;
+    rep.set("api_cases", api_cases);
+
+    // ---- binding families -------------------------------------------------------------------
+    let cases = enumerate(&plan);
+    eprintln!("[C07] {} binding cases enumerated at {:.1}s", cases.len(), ctx.elapsed());
+    let res = par_map(&cases, ctx.threads, 4 << 20, Some(deadline), |_, c| run_case(c));
+    let mut per_family: BTreeMap<String, u64> = BTreeMap::new();
+    let mut rejected: BTreeMap<String, u64> = BTreeMap::new();
+    let mut exchange_faults: BTreeMap<String, u64> = BTreeMap::new();
+    let mut checked_types: HashSet<(char, &'static str)> = HashSet::new();
+    let mut shapes_ok: HashSet<&'static str> = HashSet::new();
+    let mut relations: BTreeMap<&'static str, u64> = BTreeMap::new();
+    let mut distinct: HashSet<u64> = HashSet::new();
+    let mut tot = Stats::default();
+    let mut executed = 0usize;
+    let sample_at: Vec<usize> = vec![1, cases.len() / 40, cases.len() / 8, cases.len() / 3, cases.len() * 3 / 4];
+    let mut broken: HashSet<(char, Size)> = HashSet::new();
+    let mut subsumed = 0u64;
+    for (case, r) in cases.iter().zip(res) {
+        let Some(r) = r else {
+            exhaustive = false;
+            continue;
+        };
+        executed += 1;
+        evaluations += 1;
+        let run = match r {
+            Ok(run) => run,
+            Err(m) => return machinery(format!("harness self-check failed: {m}")),
+        };
+        *per_family.entry(format!("{}:{}", case.family, case.shape.name())).or_insert(0) += 1;
+        let st = &run.stats;
+        if let Some(why) = &st.rejected {
+            *rejected.entry(format!("{}:{}:{}", case.family, case.shape.name(), norm_msg(why))).or_insert(0) += 1;
+        }
+        if let Some(x) = &st.exchange_fault {
+            *exchange_faults.entry(x.clone()).or_insert(0) += 1;
+        }
+        if st.normal_cycles_checked > 0 {
+            shapes_ok.insert(case.shape.name());
+            for b in &case.binds {
+                checked_types.insert((b.addr.area.ch(), b.ty.name));
+            }
+            if st.image_changed {
+                distinct.insert(hash64(&case.to_json().to_string()));
+            }
+            if case.family == "pair" {
+                *relations.entry(relation(&case.binds[0].addr, &case.binds[1].addr)).or_insert(0) += 1;
+            }
+        }
+        tot.normal_cycles_checked += st.normal_cycles_checked;
+        tot.latch_comparisons += st.latch_comparisons;
+        tot.publish_comparisons += st.publish_comparisons;
+        tot.fault_cycles_checked += st.fault_cycles_checked;
+        tot.fault_value_was_visible += st.fault_value_was_visible;
+        tot.overlap_conflicts += st.overlap_conflicts;
+        tot.order_decl_wins_last += st.order_decl_wins_last;
+        tot.order_decl_wins_first += st.order_decl_wins_first;
+        if rep.samples.len() < 5 && st.normal_cycles_checked > 0 && sample_at.contains(&executed) {
+            rep.sample(json!({"case": case.to_json(), "source": source_of(case)}));
+        }
+        // Minimal failing configuration: a pair/tri case is only reported for a clause group
+        // (write side: publish/locality, read side: latch) if no member's size already failed
+        // that group in a one-binding case — otherwise one broken size would show up once per
+        // partner size and relation. Enumeration order guarantees singles come first.
+        for v in run.viols {
+            let group = if v.signature.starts_with("C07/publish/") || v.signature.starts_with("C07/locality/") {
+                Some('w')
+            } else if v.signature.starts_with("C07/latch/") {
+                Some('r')
+            } else {
+                None
+            };
+            if let Some(g) = group {
+                let relevant = |b: &&Bind| if g == 'w' { b.addr.area.writes() } else { b.addr.area.reads() };
+                if case.binds.len() == 1 {
+                    broken.insert((g, case.binds[0].addr.size));
+                } else if case.binds.iter().filter(relevant).any(|b| broken.contains(&(g, b.addr.size))) {
+                    subsumed += 1;
+                    continue;
+                }
+            }
+            rep.violation(v);
+        }
+    }
+    rep.set("pair_violations_subsumed_by_single_binding_findings", subsumed);
+    if !exchange_faults.is_empty() {
+        exhaustive = false;
+        rep.cap(format!("cases not checked because the I/O exchange itself faulted (not reported, see assumptions): {exchange_faults:?}"));
+    }
+    if executed < cases.len() {
+        rep.cap(format!("wall cap: {executed} of {} binding cases executed (enumeration order, simplest first)", cases.len()));
+    }
+    // ---- vacuity guards ---------------------------------------------------------------------
+    for sh in plan.shapes_single.iter() {
+        if !shapes_ok.contains(sh.name()) {
+            return machinery(format!("binding site '{}' is vacuous: no case compiled and completed a cycle ({rejected:?})", sh.name()));
+        }
+    }
+    if executed == cases.len() {
+        for area in AREAS {
+            for t in TYPES.iter() {
+                if !checked_types.contains(&(area.ch(), t.name)) {
+                    return machinery(format!(
+                        "type {} in area %{} is vacuous: no cycle with such a binding completed (exchange faults: {exchange_faults:?}, rejected: {rejected:?})",
+                        t.name, area.ch()
+                    ));
+                }
+            }
+        }
+    }
+    if tot.latch_comparisons == 0 || tot.publish_comparisons == 0 || tot.fault_cycles_checked == 0 || tot.fault_value_was_visible == 0 {
+        return machinery(format!("vacuous exploration: {tot:?}"));
+    }
+    if executed == cases.len() && tot.overlap_conflicts == 0 {
+        return machinery("no overlapping output pair with conflicting final values was executed");
+    }
+    rep.set("evaluations", evaluations);
+    rep.set("distinct_nontrivial", distinct.len() as u64);
+    rep.set(
+        "rule",
+        "cases = api (every address x 2 fill patterns) + binding sets: every single binding (area x {X bit0-7,B,W,D,L} x byte offset {0,1,2,3,7} x every declared type of that width) and every pair in one area whose byte spans overlap or touch (quick: unordered, one rotating type per member; thorough: ordered, all type pairs), the same address in %I+%Q+%M, and IEC partial accesses on bound bit strings; each multiplied by binding site {program VAR, VAR_GLOBAL with two tasks + background program, AT %* + VAR_CONFIG, FB VAR}, 1 or 2 logging drivers and {no fault, division by zero in cycle f}. distinct_nontrivial = distinct cases (hash of the case description) that compiled, completed at least one fully checked cycle and in which a latched value or a written image differed from the 0xA5 pre-fill.",
+    );
+    rep.set("binding_cases_enumerated", cases.len() as u64);
+    rep.set("binding_cases_executed", executed as u64);
+    rep.set("cases_per_family_and_site", json!(per_family));
+    rep.set("rejected_by_compiler", json!(rejected));
+    rep.set("exchange_faults_not_reported", json!(exchange_faults));
+    rep.set("normal_cycles_checked", tot.normal_cycles_checked);
+    rep.set("latch_comparisons", tot.latch_comparisons);
+    rep.set("image_comparisons", tot.publish_comparisons);
+    rep.set("fault_or_post_fault_cycles_checked", tot.fault_cycles_checked);
+    rep.set("fault_cycles_with_program_value_in_variable", tot.fault_value_was_visible);
+    rep.set("pair_relations_checked", json!(relations));
+    rep.set("overlap_conflicts_checked", tot.overlap_conflicts);
+    rep.set("overlap_later_declared_binding_wins", tot.order_decl_wins_last);
+    rep.set("overlap_earlier_declared_binding_wins", tot.order_decl_wins_first);
+    rep.set("types_in_alphabet", TYPES.len() as u64);
+    rep.set("exhaustive", exhaustive);
+    rep.assume("value type tags are not inspected (C03); values are compared as bit patterns of the declared width");
+    rep.assume("a fault raised by the I/O exchange itself (coercion error) makes the cycle a faulted cycle, which may publish nothing; such cycles are counted in exchange_faults_not_reported");
+    rep.assume("overlapping output/marker bindings with different final values: either serialisation of the two writes is accepted");
+    rep.assume("AT size prefix and declared type agree in every enumerated binding; TIME/DATE-like types are outside the alphabet (see non_alphabet_types)");
+    Ok(rep)
+}
+
+pub fn check_case(case: &J) -> Vec<Violation> {
+    if case["family"].as_str() == Some("api") {
+        let Some(addr) = case["addr"].as_str().and_then(Addr::parse) else {
+            return Vec::new();
+        };
+        return run_api(&addr, case["variant"].as_u64().unwrap_or(0) as usize);
+    }
+    let Some(c) = Case::from_json(case) else {
+        return Vec::new();
+    };
+    match run_case(&c) {
+        Ok(r) => r.viols,
+        Err(m) => vec![Violation {
+            signature: "C07/machinery".into(),
+            what: format!("harness self-check failed on replay: {m}"),
+            case: case.clone(),
+        }],
+    }
 }
 
 pub fn workers() -> Vec<(&'static str, WorkerFn)> {
